@@ -319,7 +319,8 @@ def check_file(f, table, path, report):
     sib = {}
     for it in f["items"]:
         if it["name"] in top:
-            report("top-name-duplicate", "%s: %s is declared twice" % (path, it["name"]))
+            report("top-name-duplicate", "%s: %s is declared twice" % (path, it["name"]),
+                   name_class="leaflist-union-message" if it["kind"] == "message" and it["name"].endswith("Union") else it["kind"])
         top[it["name"]] = True
         if it["kind"] == "message":
             check_message(it, f["package"])
